@@ -29,8 +29,14 @@ func lt(a, b int) string { return fmt.Sprintf("(< c%d c%d)", a, b) }
 func NewPO(events []Event, sol *Solver) *PO {
 	p := &PO{ev: events, sol: sol}
 	p.build()
+	// the base constraints stay asserted for all queries on this trace
+	p.sol.Send("(push)")
+	p.sol.Send(p.base...)
 	return p
 }
+
+// Close drops the trace's constraints.
+func (p *PO) Close() { p.sol.Send("(pop)") }
 
 func (p *PO) find(pred func(e Event) bool) []int {
 	var out []int
@@ -298,7 +304,6 @@ func (p *PO) build() {
 // the witnessing total order of events is returned.
 func (p *PO) Query(extra ...string) (Verdict, []int) {
 	p.sol.Send("(push)")
-	p.sol.Send(p.base...)
 	for _, x := range extra {
 		p.sol.Send("(assert " + x + ")")
 	}
